@@ -37,7 +37,7 @@ ANCHORS = [
     "acnportal.acnsim.network.charging_network:ChargingNetwork._update_info_store",
     "acnportal.acnsim.interface:Interface.allowable_pilot_signals",
 ]
-REQUIRED = ["set_pilot_judged", "finite_rate_stations_re_rated_through_the_public_attribute", "batches_with_one_invalid_pilot", "accepted", "rejected", "regime:EVSE", "regime:DeadbandEVSE", "regime:FiniteRatesEVSE",
+REQUIRED = ["set_pilot_judged", "advert_after_an_algorithm_edited_its_copy_of_the_infrastructure", "finite_rate_stations_re_rated_through_the_public_attribute", "batches_with_one_invalid_pilot", "accepted", "rejected", "regime:EVSE", "regime:DeadbandEVSE", "regime:FiniteRatesEVSE",
             "rejected_with_ev_state_checked", "advert_with_session_ids_spelled_like_other_stations", "non_finite_pilots_judged", "pilots_of_magnitude_over_1e5_judged", "pilot_equals_current", "pilot_exact_zero", "pilot_repeated", "replug_between_pilots",
             "advertised_values_applied", "suite:set_pilot_judged", "advertised_after_json", "plugin_occupied_refused", "plugin_occupied_same_session_id_refused", "network_plugin_on_occupied:satisfied_occupant", "network_plugin_occupied_refused"]
 BUDGET_S = {"quick": 200, "thorough": 2400}
@@ -456,6 +456,22 @@ def _run_advert(case, obs):
     for tag, nw in (("network", net), ("network-after-json", net2)):
         sim = Simulator(nw, UncontrolledCharging(), EventQueue(), datetime(2020, 1, 1), verbose=False)
         iface = Interface(sim)
+        if rng.random() < 0.5:
+            # an algorithm derates "its copy" of the infrastructure description in place before anybody asks for limits (a site
+            # cap of 15/16 of every maximum, minimum pilots raised by 1 A, level lists scaled): what the interface advertises
+            # afterwards is still the stations' own
+            mine = iface.infrastructure_info()
+            try:
+                np.multiply(mine.max_pilot, 0.9375, out=mine.max_pilot, casting="unsafe")
+                np.add(mine.min_pilot, 1, out=mine.min_pilot, casting="unsafe")
+                for a_ in mine.allowable_pilots:
+                    if isinstance(a_, np.ndarray) and a_.dtype.kind == "f":
+                        a_ *= 0.9375
+                    elif isinstance(a_, list):
+                        a_[:] = [x_ * 0.9375 for x_ in a_]
+            except Exception:
+                pass
+            obs.ev("advert_after_an_algorithm_edited_its_copy_of_the_infrastructure")
         info = iface.infrastructure_info()
         for i, sid in enumerate(nw.station_ids):
             evse = nw._EVSEs[sid] if hasattr(nw, "_EVSEs") else None
